@@ -319,3 +319,128 @@ def coq_expand(ctx, cases, tag='style', shard_cases=400):
     ctx.cov.setdefault('coq_eval', []).append({'cases': len(cases), 'shards': len(shards), 'groups': len(order),
                                               'wall_s': round(time.time() - t0, 1)})
     return res
+
+
+# ------------------------------------------------------------------ implementation runner with a primed snippet cache
+class ImplRunner:
+    """Runs emmet.expand for (Cfg, abbr) cases.
+
+    A fresh Config converts the whole snippet table on every call (~15 ms).  To afford tens of thousands of cases the
+    runner hands every call of one configuration the same `cache` dict (a supported config key), so the table is
+    converted once per configuration.  The one known impurity of that path -- resolve_numeric_value writing units into
+    NumberValue tokens that belong to cached snippets (a C08 matter, owned by another check) -- is undone after every
+    call by restoring the units recorded right after conversion.  `selfcheck` re-runs a sample with completely fresh
+    configurations and reports any difference as a broken tie."""
+
+    def __init__(self):
+        self.state = {}
+
+    @staticmethod
+    def _numbers(snippets):
+        out = []
+
+        def walk(v):
+            tn = type(v).__name__
+            if tn == 'NumberValue':
+                out.append((v, v.unit))
+            elif tn == 'FunctionCall':
+                for a in v.arguments:
+                    for x in a.value:
+                        walk(x)
+        for s in snippets:
+            if getattr(s, 'type', None) == 'Property':
+                for alt in s.value:
+                    for cv in alt:
+                        for x in cv.value:
+                            walk(x)
+                for v in s.keywords.values():
+                    walk(v)
+        return out
+
+    def expand(self, abbr, cfg):
+        from emmet import expand
+        k = cfg.key()
+        st = self.state.get(k)
+        if st is None:
+            st = {'cache': {}, 'numbers': None}
+            self.state[k] = st
+        conf = cfg.impl_config()
+        conf['cache'] = st['cache']
+        try:
+            r = ('ok', expand(abbr, conf))
+        except Exception as e:
+            r = classify_exc(e, len(abbr))
+        if st['numbers'] is None and 'stylesheet_snippets' in st['cache']:
+            # first successful conversion: the tokens may already carry units written by this very call;
+            # re-read them from a fresh conversion of the same table
+            from emmet.stylesheet import convert_snippets
+            from emmet.config import Config
+            fresh = convert_snippets(Config(cfg.impl_config()).snippets)
+            st['cache']['stylesheet_snippets'] = fresh
+            st['numbers'] = self._numbers(fresh)
+        elif st['numbers']:
+            for tok, unit in st['numbers']:
+                tok.unit = unit
+        return r
+
+    def selfcheck(self, ctx, cases, results, rate=0.02, always=()):
+        """Compare a sample of cached results with fresh-configuration runs."""
+        n = 0
+        bad = 0
+        idxs = set(always)
+        for i in range(len(cases)):
+            if ctx.rng.random() < rate:
+                idxs.add(i)
+        for i in sorted(idxs):
+            cfg, abbr = cases[i]
+            n += 1
+            fresh = impl_expand(abbr, cfg)
+            if fresh != results[i]:
+                bad += 1
+                if bad <= 3:
+                    ctx.say('CACHE SELF-CHECK differs for %r under %s\n  cached %r\n  fresh  %r' % (abbr, cfg.to_json(), results[i], fresh))
+                    ctx.broken.append({'kind': 'impl-cache-selfcheck', 'file': 'style_util.ImplRunner', 'input': abbr,
+                                       'config': cfg.to_json(), 'cached': repr(results[i])[:300], 'fresh': repr(fresh)[:300]})
+        ctx.cov['correspondence']['impl_cache_selfcheck'] = {'cases': n, 'differences': bad}
+
+
+def _impl_chunk(chunk):
+    r = ImplRunner()
+    return [r.expand(abbr, cfg) for cfg, abbr in chunk]
+
+
+def impl_expand_many(cases, procs=None):
+    """ImplRunner over many cases, in parallel processes for large batches (order preserved)."""
+    cases = list(cases)
+    if len(cases) < 4000:
+        return _impl_chunk(cases)
+    import multiprocessing
+    procs = procs or common.NPROC
+    size = max(500, (len(cases) + procs * 4 - 1) // (procs * 4))
+    chunks = [cases[i:i + size] for i in range(0, len(cases), size)]
+    with multiprocessing.get_context('fork').Pool(procs) as pool:
+        outs = pool.map(_impl_chunk, chunks)
+    return [x for o in outs for x in o]
+
+
+def outcome_class(r):
+    """ok | scanner pos | token pos | internal type -- the C07 observable (no text, no messages)."""
+    if r[0] == 'ok':
+        return ('ok',)
+    return tuple(r)
+
+
+def c07_oracle(abbr, r):
+    """The C07 statement on one implementation outcome; None or a description."""
+    if r[0] == 'ok':
+        if not isinstance(r[1], str):
+            return 'expand returned %r, not a string' % (type(r[1]).__name__,)
+        return None
+    if r[0] in ('scanner', 'token'):
+        p = r[1]
+        if p is None:
+            return None
+        if not isinstance(p, int) or isinstance(p, bool) or p < 0 or p > len(abbr):
+            return '%s error position %r outside input of length %d' % (r[0], p, len(abbr))
+        return None
+    return 'expand raised %s (not one of the two parse errors)' % (r[1],)
